@@ -33,6 +33,8 @@ func init() {
 			{ID: "C01.R13", Floor: 2, Run: idsNotFabricated, Text: "component ids in per-column loops come from the table's id list (or a parameter), never from a position in the buffer list"},
 			{ID: "C01.R14", Floor: 1, Run: layoutCountFromCount, Text: "the layout count covers every registered id (= C16.R12)"},
 			{ID: "C01.R15", Floor: 2, Run: exchangeSettersReplace, Text: "generic Exchange setters replace (= C18.R17): Adds/Removes store a list that does not depend on the one stored before; an accumulating setter removes components the current configuration does not name"},
+			{ID: "C01.R16", Floor: 3, Run: exchangeListsAgree, Text: "generic Exchange: with and without target the same add/remove lists (= C18.R15): Remove(entity, target) adds nothing"},
+			{ID: "C01.R17", Floor: 20, Run: mapListsComplete, Text: "component lists of MapN are complete (= C18.R20): NewWith/Assign hand all N components to the core in both the target and the no-target branch"},
 		},
 	})
 }
